@@ -595,7 +595,7 @@ def inline_top(prog, e, crate="svgbob", rounds=3, keep=None):
     return e
 
 
-def bool_function(prog, path, atom, depth=3, max_paths=64, keep=None):
+def bool_function(prog, path, atom, depth=3, max_paths=64, keep=None, result=None, free=False):
     """the boolean function a loop-free body computes over the atomic tests `atom` recognises (atom(expr) -> name | None),
     decided path by path with crate-local helpers inlined: returns (atoms, {assignment tuple: bool}) or (None, reason).
     `a && b`, `if !a { return false } b`, `match (a, b) {..}` and a helper in between all give the same table.
@@ -616,6 +616,10 @@ def bool_function(prog, path, atom, depth=3, max_paths=64, keep=None):
             while c[0] == "un" and c[1] == "Not":
                 c, neg = strip(c[2]), not neg
             a = atom(c)
+            if a is None and free:
+                # an unrecognised test becomes a free variable `?<expr>`: the caller checks that the result does not
+                # depend on it (branches that only compute the value, not the decision)
+                a = "?" + _short(c)
             if a is None:
                 return None, "a branch on `%s` is not one of the expected tests" % _short(c)
             if isinstance(a, tuple) and a[0] == "not":
@@ -626,7 +630,13 @@ def bool_function(prog, path, atom, depth=3, max_paths=64, keep=None):
         neg = False
         while r[0] == "un" and r[1] == "Not":
             r, neg = strip(r[2]), not neg
-        if r[0] == "const" and r[1] in ("int", "bool") and r[2] in (0, 1, True, False):
+        if result is not None:
+            # the caller's reading of the returned value as a truth value (e.g. "is Some")
+            v = result(r)
+            if v is None:
+                return None, "the result `%s` is not recognised" % _short(r)
+            rv = ("const", bool(v))
+        elif r[0] == "const" and r[1] in ("int", "bool") and r[2] in (0, 1, True, False):
             rv = ("const", bool(r[2]) != neg)
         else:
             a = atom(r)
